@@ -18,7 +18,17 @@ import tempfile
 import time
 from concurrent.futures import ThreadPoolExecutor
 
-MAIN_C = b'#include "a.h"\nint f(int x) { int unused_variable; return A_VAL + x; }\n'
+def _blob(n):
+    x, out = 12345, []
+    for _ in range(n):
+        x = (x * 1103515245 + 12345) % (1 << 31)
+        out.append(str((x >> 16) & 255))
+    return ','.join(out).encode()
+
+
+# 3 KiB of data that does not compress: most of the stored object is literal bytes
+MAIN_C = (b'#include "a.h"\nint f(int x) { int unused_variable; return A_VAL + x; }\n'
+          b'const unsigned char blob[] = {' + _blob(3072) + b'};\n')
 A_H = b'#define A_VAL 11\n'
 BAD_C = b'#include "a.h"\nint g(void) { return A_VAL + ; }\n'
 OTHER_C = b'#include "a.h"\nint h%d(void) { return A_VAL * %d; }\n'
@@ -142,8 +152,45 @@ class Site:
         shutil.rmtree(self.d, ignore_errors=True)
 
 
+def zip_members(b):
+    """[(name, data offset, stored size)] from the central directory of a zip archive."""
+    eocd = b.rfind(b'PK\x05\x06')
+    if eocd < 0:
+        return []
+    n = int.from_bytes(b[eocd + 10:eocd + 12], 'little')
+    p = int.from_bytes(b[eocd + 16:eocd + 20], 'little')
+    out = []
+    for _ in range(n):
+        if b[p:p + 4] != b'PK\x01\x02':
+            break
+        csize = int.from_bytes(b[p + 20:p + 24], 'little')
+        nl = int.from_bytes(b[p + 28:p + 30], 'little')
+        el = int.from_bytes(b[p + 30:p + 32], 'little')
+        cl = int.from_bytes(b[p + 32:p + 34], 'little')
+        lho = int.from_bytes(b[p + 42:p + 46], 'little')
+        name = b[p + 46:p + 46 + nl]
+        lnl = int.from_bytes(b[lho + 26:lho + 28], 'little')
+        lel = int.from_bytes(b[lho + 28:lho + 30], 'little')
+        out.append((name, lho + 30 + lnl + lel, csize))
+        p += 46 + nl + el + cl
+    return out
+
+
 def damage(path, how):
-    if how == 'truncate':
+    if how.startswith('flip'):
+        # change bytes IN PLACE inside the stored data of the largest member (the object file): file length,
+        # zip directory and local headers stay valid.  how = flip<permille>[x<count>]
+        spec = how[4:].split('x')
+        permille, count = int(spec[0]), int(spec[1]) if len(spec) > 1 else 1
+        b = bytearray(open(path, 'rb').read())
+        ms = sorted(zip_members(bytes(b)), key=lambda m: -m[2])
+        if ms and ms[0][2] > 0:
+            _, start, size = ms[0]
+            for i in range(count):
+                pos = start + min(size - 1, size * permille // 1000 + i)
+                b[pos] = (b[pos] + 1) % 256
+            open(path, 'wb').write(bytes(b))
+    elif how == 'truncate':
         b = open(path, 'rb').read()
         open(path, 'wb').write(b[:max(1, len(b) // 2)])
     elif how == 'empty':
@@ -164,6 +211,9 @@ for _t in ('res', 'pp'):
         FAULTS['%s_%s' % (_t, _h)] = (_t, _h, False)
 for _t, _h in (('res', 'overwrite'), ('res', 'delete'), ('pp', 'truncate'), ('pp', 'overwrite'), ('both', 'overwrite')):
     FAULTS['%s_%s_restart' % (_t, _h)] = (_t, _h, True)
+for _pm in (5, 150, 300, 450, 600, 750, 900, 995):
+    FAULTS['res_flip%d' % _pm] = ('res', 'flip%d' % _pm, False)
+FAULTS['res_flip500x4_restart'] = ('res', 'flip500x4', True)
 FAULTS['both_truncate'] = ('both', 'truncate', False)
 FAULTS['cache_dir_removed'] = ('dir', 'removed', False)
 FAULTS['cache_dir_is_a_file'] = ('dir', 'file', False)
@@ -255,6 +305,65 @@ def run_fault_scenario(sccache, name):
             vs.append('read-only cache did not serve the stored entry (hits %d)' % hits)
         vs += stats_laws(after, 'after the scenario')
         return dict(name=name, violations=vs, notes=notes, stats=after, hits=hits)
+    finally:
+        s.cleanup()
+
+
+def run_first_touch_scenario(sccache, mode):
+    """The cache directory cannot be opened when the server first touches its stores (a regular file in place of
+    its parent directory), the fault is removed later: builds must work throughout, and after the repair a miss
+    must store and its repeat must hit.  mode = 'empty' (never populated) | 'populated' (restart over a full cache)."""
+    name = 'unusable_at_first_use_%s' % mode
+    s = Site(sccache)
+    vs, notes = [], []
+    try:
+        home = os.path.join(s.d, 'home')
+        s.cache = os.path.join(home, 'cache')
+        s.write_config('100000000', None)
+        ref = s.direct()
+        os.makedirs(home)
+        if mode == 'populated':
+            if not s.start():
+                return dict(name=name, violations=[], notes=['server did not start'], skipped=True)
+            r = s.compile()
+            if not same(r, ref):
+                vs.append('populating compile differs from direct gcc')
+            s.stop()
+            os.rename(home, home + '.saved')
+        else:
+            os.rmdir(home)
+        open(home, 'wb').write(b'a regular file where a directory should be')
+        if not s.start():
+            return dict(name=name, violations=vs + ['server does not start while the cache directory is unusable'], notes=notes)
+        for k in range(2):
+            r = s.compile()
+            if not same(r, ref):
+                vs.append('compile %d while the cache directory is unusable: %s; direct gcc: %s' % (k, describe(r), describe(ref)))
+        # ---- the fault is removed (same server)
+        os.unlink(home)
+        if mode == 'populated':
+            os.rename(home + '.saved', home)
+        else:
+            os.makedirs(home)
+        before = s.stats()
+        r1 = s.compile()
+        r2 = s.compile()
+        open(os.path.join(s.src, 'other.c'), 'wb').write(OTHER_C % (1, 3))
+        refo = s.direct('other.c', 'refo.o')
+        r3 = s.compile('other.c', 'other.o')
+        r4 = s.compile('other.c', 'other.o')
+        for what, r, want in (('first', r1, ref), ('second', r2, ref), ('new unit', r3, refo), ('new unit again', r4, refo)):
+            if not same(r, want):
+                vs.append('%s compile after the repair: %s; direct gcc: %s' % (what, describe(r), describe(want)))
+        after = s.stats()
+        hits = sum(after['cache_hits']['counts'].values()) - sum(before['cache_hits']['counts'].values())
+        werr = after['cache_write_errors'] - before['cache_write_errors']
+        if hits < 2:
+            vs.append('after the cache directory was repaired the cache is not used again: 4 fault-free compiles of 2 units gave '
+                      '%d hits (expected >= 2), %d write errors, %d read errors' % (
+                          hits, werr, after['cache_read_errors'] - before['cache_read_errors']))
+        vs += stats_laws(after, 'after the scenario')
+        return dict(name=name, violations=vs, notes=notes, hits=hits)
     finally:
         s.cleanup()
 
